@@ -60,6 +60,19 @@ VIEW_TOL = 1e-9             # E3 view comparison (stale / wrong values differ by
 
 ITERS = (1, 2, 3, 5, 10, 20)
 PVEC = (1.0, 2.0, 0.5, 1.5)
+# powers span 16 decades (all relations are scale-covariant); mixed vectors per K
+PDECADES = (1e-10, 1e-6, 1e-3, 1.0, 1e3, 1e6)
+PMIX = (1e-6, 1e3, 1.0, 1e-10)
+PMIX2 = (1e6, 1e-3, 1e-10, 1.0)
+HSCALES = (1.0, 1e-4, 1e4)      # path loss makes real channels tiny
+
+
+def members(tier):
+    """(family member, channel scale factor) pairs"""
+    if tier == "thorough":
+        return [(s_, HSCALES[s_ % 3]) for s_ in range(12)] + \
+            [(0, 1e-4), (0, 1e4), (1, 1.0), (1, 1e4), (2, 1.0), (2, 1e-4)]
+    return [(0, 1.0), (1, 1e-4), (2, 1e4)]
 ITERATIVE = ("AlternatingMinIASolver", "MinLeakageIASolver", "MaxSinrIASolver", "MMSEIASolver")
 
 # (K, Nr, Nt, Ns)
@@ -73,6 +86,7 @@ CFGS_QUICK = [
     (2, [2, 3], [3, 2], 1),
     (3, [3, 2, 3], [2, 3, 3], 1),
     (3, [4, 4, 4], [4, 4, 4], [1, 2, 1]),
+    (2, [6, 6], [6, 6], 3),
 ]
 CFGS_THOROUGH = CFGS_QUICK + [
     (4, [3, 3, 3, 3], [3, 3, 3, 3], 1),
@@ -83,11 +97,25 @@ CFGS_THOROUGH = CFGS_QUICK + [
 # ----------------------------------------------------------------------
 # helpers
 # ----------------------------------------------------------------------
-def make_channel(s, K, Nr, Nt, noise):
+SNR_CAP = 1e8
+
+
+def effective_noise(noise, P, hscale, K):
+    """MaxSinr / MMSE need invertible interference-plus-noise covariances.  `noise` is used as
+    given (absolute) while max(P) hscale^2 / noise <= SNR_CAP; above that the matrices are
+    numerically noise-free (= the zero-noise configurations on which these solvers are not
+    defined), so the same *relative* noise level is used instead: noise * hscale^2 * max(P)."""
+    if noise is None:
+        return None
+    rx = float(np.max(p_vec(P, K))) * float(hscale) ** 2
+    return noise if rx <= SNR_CAP * noise else noise * rx
+
+
+def make_channel(s, K, Nr, Nt, noise, hscale=1.0):
     from pyphysim.channels.multiuser import MultiUserChannelMatrix
     Nr = np.array(Nr, dtype=int)
     Nt = np.array(Nt, dtype=int)
-    H = families.generic(int(s), (int(Nr.sum()), int(Nt.sum())), tag=10)
+    H = families.generic(int(s), (int(Nr.sum()), int(Nt.sum())), tag=10) * float(hscale)
     m = MultiUserChannelMatrix()
     m.init_from_channel_matrix(H.copy(), Nr, Nt, K)
     if noise is not None:
@@ -169,6 +197,41 @@ def obj_array(seq):
     return a
 
 
+def _scaled(o):
+    """replace every float array / scalar of an object graph by (decimal exponent of its
+    largest magnitude, mantissas): bfs.digest rounds to absolute decimals, which would merge
+    states that differ only in tiny-valued arrays (P = 1e-10, channels scaled by 1e-4)"""
+    if isinstance(o, np.ndarray):
+        if o.dtype == object:
+            return ["<objarr>", list(o.shape)] + [_scaled(e) for e in o.ravel().tolist()]
+        if o.dtype.kind in "fc" and o.size:
+            fin = np.abs(o[np.isfinite(o)])
+            m = float(fin.max()) if fin.size else 0.0
+            if m > 0.0:
+                e = int(math.floor(math.log10(m)))
+                return ["<arr>", e, o / 10.0 ** e]
+        return o
+    if isinstance(o, (float, np.floating, complex, np.complexfloating)) and not isinstance(o, bool):
+        m = abs(o)
+        if m > 0.0 and math.isfinite(m):
+            e = int(math.floor(math.log10(m)))
+            return ["<num>", e, o / 10.0 ** e]
+        return o
+    if isinstance(o, (list, tuple)):
+        return [_scaled(e) for e in o]
+    if isinstance(o, dict):
+        return {k: _scaled(v) for k, v in o.items()}
+    if isinstance(o, np.random.RandomState) or o is None or isinstance(o, (str, bytes, int, bool, np.integer)):
+        return o
+    if hasattr(o, "__dict__") and not callable(o):
+        return ["<obj>", type(o).__name__, {k: _scaled(v) for k, v in vars(o).items()}]
+    return o
+
+
+def sdigest(o, nd=9):
+    return bfs.digest(_scaled(o), nd)
+
+
 def maxabs(a):
     a = np.asarray(a)
     return float(np.max(np.abs(a))) if a.size else 0.0
@@ -184,7 +247,7 @@ def same(a, b, tol=VIEW_TOL):
     d = np.abs(a - b)
     if not np.all(np.isfinite(d)):
         return False
-    return float(d.max()) <= tol * max(1.0, maxabs(a), maxabs(b))
+    return float(d.max()) <= tol * max(maxabs(a), maxabs(b))      # relative: scale-covariant
 
 
 def same_lists(A_, B_, tol=VIEW_TOL):
@@ -223,16 +286,19 @@ def leakage(FF, hkl, K, Ns):
 # ----------------------------------------------------------------------
 def e1_cases(tier):
     thorough = tier == "thorough"
-    S = 20 if thorough else 3
+    mem = members(tier)
     out = []
     # closed form
-    cf = [(2, 1), (4, 2)] + ([(6, 3)] if thorough else [])
+    cf = [(2, 1), (4, 2), (6, 3)]
     for (N, Ns) in cf:
         for best in (True, False):
-            for P in (None, 0.5, 1.0, 10.0, list(PVEC[:3])):
-                for s in range(S):
+            if N == 6 and best and not thorough:
+                continue            # 20 initialisations per solve: thorough only
+            for P in (None, 0.5) + PDECADES + (list(PMIX[:3]), list(PMIX2[:3])):
+                for (s, hs) in mem:
                     out.append(dict(part="E1", solver="ClosedFormIASolver", K=3, Nr=[N] * 3, Nt=[N] * 3,
-                                    Ns=Ns, best=best, init=None, P=P, noise=None, s=s, iters=[None]))
+                                    Ns=Ns, best=best, init=None, P=P, noise=None, s=s, hscale=hs,
+                                    iters=[None]))
     cfgs = CFGS_THOROUGH if thorough else CFGS_QUICK
     for name in ITERATIVE:
         noises = [None] if name in ITERATIVE[:2] else ([0.05, 1.0] if thorough else [0.05])
@@ -243,13 +309,17 @@ def e1_cases(tier):
                 if init == "closed_form" and not (K == 3 and Nr == Nt and len(set(Nr)) == 1
                                                   and isinstance(Ns, int)):
                     continue
-                powers = [0.5, 1.0, 10.0, list(PVEC[:K])] + ([None] if thorough else [])
+                powers = list(PDECADES) + [list(PMIX[:K])] + \
+                    ([None, 0.5, list(PVEC[:K]), list(PMIX2[:K])] if thorough else [])
                 for P in powers:
                     for noise in noises:
-                        for s in range(S):
-                            iters = ([0] if init in ("random", "svd") else []) + list(ITERS)
+                        for (s, hs) in mem:
+                            # quick: MaxSinr / MMSE (no cost sequence to follow) skip 3 and 10
+                            its = ITERS if (thorough or name in ITERATIVE[:2]) else (1, 2, 5, 20)
+                            iters = ([0] if init in ("random", "svd") else []) + list(its)
                             out.append(dict(part="E1", solver=name, K=K, Nr=list(Nr), Nt=list(Nt), Ns=Ns,
-                                            best=None, init=init, P=P, noise=noise, s=s, iters=iters))
+                                            best=None, init=init, P=P, noise=noise, s=s, hscale=hs,
+                                            iters=iters))
     return out
 
 
@@ -257,6 +327,9 @@ def solve_exception_sig(case, e):
     name = case["solver"]
     if case["init"] == "svd" and list(case["Nr"]) != list(case["Nt"]):
         return ("solve", "initialize_with=svd", "Nt!=Nr", "exception")
+    names = [fr.name for fr in traceback.extract_tb(e.__traceback__)]
+    if "_initialize_F_and_W_from_closed_form" in names and exc_where(e).endswith(":solve"):
+        return ("solve", "initialize_with=closed_form", "exception", type(e).__name__, exc_where(e))
     multi = max(ns_vec(case["Ns"], case["K"])) > 1
     return ("solve", name, "Ns>1" if multi else "Ns=1", "exception", type(e).__name__, exc_where(e))
 
@@ -301,7 +374,7 @@ def check_solution(chk, sv, H, case, n):
         chk.count("solves_with_rank_reduction")
         chk.outcome("rank_reduction", (name, tuple(Ns)))
     # --- P as reported
-    if not same(np.asarray(sv.P, dtype=float), Pv, 1e-15):
+    if not same(np.asarray(sv.P, dtype=float), Pv, 4 * EPS):
         chk.fail(("solve", name, "P_reported"), c, observed=np.asarray(sv.P), expected=Pv)
         ok = False
     # --- W == W_H^H, full_W == full_W_H^H (exact copies)
@@ -336,7 +409,9 @@ def check_solution(chk, sv, H, case, n):
                 if p < Pv[k] * (1 - 1e-3):
                     chk.outcome("mmse_power_slack", (case["K"], tuple(Nr), k))
                 # full_F parallel to F
-                if not same(FF[k], F[k] * math.sqrt(p), 1e-9):
+                # (when _solve_finalize reduces the rank it discards, separately in F and in
+                # full_F, directions whose relative singular value is below 1e-4)
+                if not same(FF[k], F[k] * math.sqrt(p), 1e-9 if Ns == req else 1e-3):
                     chk.fail(("solve", name, "full_F_not_parallel_to_F"), dict(c, user=k),
                              observed=FF[k], expected=F[k] * math.sqrt(p))
                     ok = False
@@ -396,9 +471,13 @@ def run_e1_case(chk, case):
     with chk.guard(("solve", name, "oracle"), case):
         costs = []          # (n, leakage oracle, get_cost, scale)
         key = (name, K, tuple(Nr), tuple(Nt), tuple(req), case["init"], case["best"],
-               repr(case["P"]), case["noise"], case["s"])
+               repr(case["P"]), case["noise"], case["s"], case.get("hscale", 1.0))
         for n in case["iters"]:
-            m, H = make_channel(case["s"], K, Nr, Nt, case["noise"])
+            hs = case.get("hscale", 1.0)
+            noise = effective_noise(case["noise"], case["P"], hs, K)
+            if noise != case["noise"]:
+                chk.count("solves_with_relative_noise_above_snr_cap")
+            m, H = make_channel(case["s"], K, Nr, Nt, noise, hs)
             sv = make_solver(name, m, case["init"], n, case["best"])
             if name != "ClosedFormIASolver":
                 own_rng(sv, 1000 + case["s"])
@@ -469,11 +548,13 @@ def e3_bases(tier):
         dict(solver="AlternatingMinIASolver", K=3, Nr=[2, 2, 2], Nt=[2, 2, 2], Ns=1, init="random", n=3,
              P0=1.5, noise=None),
         dict(solver="MaxSinrIASolver", K=2, Nr=[3, 3], Nt=[3, 3], Ns=1, init="svd", n=2, P0=None,
-             noise=0.05),
+             noise=0.05, hscale=1e4),
         dict(solver="MMSEIASolver", K=2, Nr=[2, 2], Nt=[2, 2], Ns=1, init="random", n=2, P0=4.0,
              noise=0.05),
-        dict(solver="AlternatingMinIASolver", K=2, Nr=[4, 4], Nt=[4, 4], Ns=2, init="svd", n=2,
-             P0=[1.0, 2.0], noise=None),
+        dict(solver="AlternatingMinIASolver", K=2, Nr=[6, 6], Nt=[6, 6], Ns=3, init="svd", n=2,
+             P0=[1.0, 2.0], noise=None, hscale=1e-4),
+        dict(solver="ClosedFormIASolver", K=3, Nr=[4, 4, 4], Nt=[4, 4, 4], Ns=2, init=None, n=None,
+             P0=1e-6, noise=None, best=False),
         dict(solver="MinLeakageIASolver", K=3, Nr=[2, 2, 2], Nt=[2, 2, 2], Ns=1, init="closed_form", n=2,
              P0=1.0, noise=None),
     ]
@@ -483,7 +564,7 @@ def e3_bases(tier):
 
 READS = ("full_F", "full_W_H", "full_W", "W", "W_H")
 EVENTS = ([("read", r) for r in READS] +
-          [("P", 2.0), ("P", "vec"), ("P", None),
+          [("P", 2.0), ("P", 1e-10), ("P", 1e6), ("P", "vec"), ("P", None),
            ("setF", "array"), ("setF", "list"), ("setFF_P", "array"),
            ("setWH", "array"), ("setWH", "list"), ("setW", "array"),
            ("randF", 5), ("solve", 0)])
@@ -524,8 +605,8 @@ def payload(base, what):
     return out
 
 
-PV_EVENT = (1.0, 2.0, 0.5)
-PV_SETFF = (0.5, 3.0, 1.5)
+PV_EVENT = (1e-6, 1e3, 1.0)
+PV_SETFF = (1e-8, 3.0, 1e4)
 
 
 def e3_solve(sv, base):
@@ -571,14 +652,15 @@ class E3Job:
         self.K = base["K"]
         self.memo = {}          # hist -> dict(failing={view: (kind, digest)}, obs={view: digest})
         self._fresh = None
-        m, self.H = make_channel(base["s"], base["K"], base["Nr"], base["Nt"], base["noise"])
+        m, self.H = make_channel(base["s"], base["K"], base["Nr"], base["Nt"], base["noise"],
+                                 base.get("hscale", 1.0))
         self.hkl = blocks(self.H, base["Nr"], base["Nt"])
 
     # ---- real object ---------------------------------------------------
     def new_solver(self):
         b = self.base
-        m, _ = make_channel(b["s"], b["K"], b["Nr"], b["Nt"], b["noise"])
-        return make_solver(b["solver"], m, b["init"], b["n"], True)
+        m, _ = make_channel(b["s"], b["K"], b["Nr"], b["Nt"], b["noise"], b.get("hscale", 1.0))
+        return make_solver(b["solver"], m, b["init"], b["n"], b.get("best", True))
 
     def build(self, hist):
         st = dict(solver=None, error=None, digest=None, hist=hist)
@@ -591,7 +673,7 @@ class E3Job:
                 st["failed_event"] = ev
                 apply_event(sv, ev, self.base)
             st["failed_event"] = None
-            st["digest"] = bfs.digest(sv, 9)
+            st["digest"] = sdigest(sv, 9)
             st["caches"] = tuple(a for a in ("_F", "_full_F", "_W", "_W_H", "_full_W_H", "_full_W", "_P")
                                  if getattr(sv, a, None) is not None) + (type(getattr(sv, "_F", None)).__name__,)
         except Exception as e:  # noqa
@@ -717,10 +799,10 @@ class E3Job:
             if obs[v][0] != "ok":
                 rec["obs"][v] = obs[v][1]
             elif v in lists:
-                rec["obs"][v] = bfs.digest(lists[v], 8) if lists[v] is not None else \
+                rec["obs"][v] = sdigest(lists[v], 8) if lists[v] is not None else \
                     "shape:" + repr(shapes_of(obs[v][1]))
             else:
-                rec["obs"][v] = bfs.digest(np.asarray(obs[v][1]), 8)
+                rec["obs"][v] = sdigest(np.asarray(obs[v][1]), 8)
         bad = {}          # view -> (kind, observed, expected)
 
         def flag(v, kind, o, x, cause=None, silent=False):
@@ -744,7 +826,7 @@ class E3Job:
             Po = np.asarray(obs["P"][1])
             if Po.shape != (K,) or Po.dtype == object:
                 flag("P", "wrong_shape", repr(obs["P"][1]), md["P"])
-            elif not same(Po.astype(float), md["P"], 1e-15):
+            elif not same(Po.astype(float), md["P"], 4 * EPS):
                 flag("P", stale_or("P", "wrong_value"), Po, md["P"])
         if "Ns" not in bad:
             want = [x.shape[1] for x in md["F"]]
@@ -926,14 +1008,21 @@ def main(chk: Check):
                           e1_cases=len(e1_cases(tier))))
     jobs = all_jobs(tier)
 
+    e3 = [j for j in jobs if j[0] == "E3"]
+    e1 = [j for j in jobs if j[0] == "E1"]
+
     def worker(i, n, c):
-        for kind, job, depth in shard(iter(jobs), i, n):
-            if kind == "E3":
-                run_e3_job(c, job, depth)
-            else:
+        # E3 jobs are long: one per shard; shards without one take a triple share of E1
+        for kind, job, depth in shard(iter(e3), i, n):
+            run_e3_job(c, job, depth)
+        slots = []
+        for sh in range(n):
+            slots += [sh] * (1 if sh < len(e3) else 3)
+        for j, (kind, job, depth) in enumerate(e1):
+            if slots[j % len(slots)] == i:
                 run_e1_case(c, job)
 
-    run_shards(chk, worker)
+    run_shards(chk, worker, common.ncores())
     chk.sample(jobs[0][1])
     chk.sample(jobs[-1][1])
     chk.require_outcomes("cache_population", 8)
